@@ -146,7 +146,7 @@ fn lazy_scenario() -> SimResult {
                             let c = libcall("clone", || target.clone())?;
                             note_clone(&c);
                             check_lazy_str(&c, &decoded, &what)?;
-                            libcall("drop clone", move || drop(c))
+                            if crate::choice::chance(1, 5) { crate::runner::drop_unwinding(c) } else { libcall("drop clone", move || drop(c)) }
                         })();
                         collect(&errs, r)
                     }
@@ -397,7 +397,7 @@ fn owned_scenario() -> SimResult {
                             let s = libcall("to_string(clone)", || sonic_rs::to_string(&c))?
                                 .map_err(|e| Violation::new("mismatch/serialize-error", format!("{}: {}", what, e)))?;
                             oracle::check_serialized(&s, &model, &what)?;
-                            libcall("drop clone", move || drop(c))
+                            if crate::choice::chance(1, 5) { crate::runner::drop_unwinding(c) } else { libcall("drop clone", move || drop(c)) }
                         })();
                         collect(&errs, r)
                     }
